@@ -103,6 +103,26 @@ func newStore(kind string, c *tcase) storage.Store {
 			gr.AddTriples(ctx, ts)
 		}
 	}
+	// a wide graph: many rows per clause (more than GOMAXPROCS), literal / predicate valued objects, fan-out 3
+	if w, err := s.NewGraph(ctx, "?w"); err == nil {
+		var wide []*triple.Triple
+		for i := 0; i < 48; i++ {
+			for _, l := range []string{
+				fmt.Sprintf("/u<n%d>\t\"name\"@[]\t\"name %d\"^^type:text", i, i),
+				fmt.Sprintf("/u<n%d>\t\"score\"@[]\t\"%d\"^^type:int64", i, i%7),
+				fmt.Sprintf("/u<n%d>\t\"next\"@[]\t/u<n%d>", i, (i+1)%48),
+				fmt.Sprintf("/u<n%d>\t\"likes\"@[]\t/t<a%d>", i, i%3),
+				fmt.Sprintf("/u<n%d>\t\"likes\"@[]\t/t<b%d>", i, i%5),
+				fmt.Sprintf("/u<n%d>\t\"likes\"@[]\t/t<c%d>", i, i%2),
+				fmt.Sprintf("/u<n%d>\t\"seen\"@[2016-01-%02dT00:00:00Z]\t/u<n%d>", i, 1+i%28, (i+7)%48),
+			} {
+				if t, err := triple.Parse(l, literal.DefaultBuilder()); err == nil {
+					wide = append(wide, t)
+				}
+			}
+		}
+		w.AddTriples(ctx, wide)
+	}
 	return s
 }
 
@@ -267,6 +287,28 @@ var corpus = []string{
 	`select ?s from ?a where {?s "p"@[] ?o} order by ?zz;`,
 	`select ?s from ?a where {?s "p"@[] ?o} group by ?s;`,
 	`select ?x from ?a where {?s "p"@[] ?o};`,
+	// wide intermediate tables, joins through literal / predicate valued bindings
+	`select ?x from ?w where {?s "name"@[] ?o . ?o ?q ?x};`,
+	`select ?s, ?z from ?w where {?s "next"@[] ?y . ?y "likes"@[] ?z};`,
+	`select ?s, ?z from ?w where {?s "likes"@[] ?y . ?s "likes"@[] ?z . ?s "next"@[] ?n};`,
+	`select ?s from ?w where {?s "score"@[] ?o . ?x ?o ?y};`,
+	`select ?s, ?t from ?w where {?s "seen"@[?t] ?o . optional {?o "seen"@[?t] ?z}};`,
+	`select ?s from ?w where {?s "next"@[] ?o . optional {/u<nobody> "seen"@[?t] ?k} . ?o "seen"@[?t] ?z};`,
+	`select ?s, count(?z) as ?n from ?w where {?s "likes"@[] ?z} group by ?s order by ?n desc limit "5"^^type:int64;`,
+	// HAVING / LIMIT constants that lex and pass the grammar but do not parse for their type
+	`select ?s from ?w where {?s "score"@[] ?o} having ?o > "tall"^^type:int64;`,
+	`select ?s from ?w where {?s "score"@[] ?o} having ?o = "1.5"^^type:int64;`,
+	`select ?s from ?w where {?s "name"@[] ?o} having ?o < "maybe"^^type:bool;`,
+	`select ?s from ?w where {?s "score"@[] ?o} having not (?o > "abc"^^type:float64) or ?o = "[300]"^^type:blob;`,
+	`select ?s from ?w where {?s "seen"@[?t] ?o} having ?t < 2016-13-45T00:00:00Z;`,
+	`select ?s from ?w where {?s "score"@[] ?o} limit "many"^^type:int64;`,
+}
+
+// texts with a syntax error followed, a few tokens later, by a lexical error: the lexer goroutine is still running (or
+// blocked on a full channel) when the parser gives up; repeated many times because a leak there depends on timing
+var raceCorpus = []string{
+	`?a ?b ?c ?d nonsense;`, `select ?a ?b ?c ?d ?e nonsense;`, `create ?a ?b ?c ?d "unterminated`, `drop graph ?a ?b ?c ?d ?e ?f /u<unterminated`,
+	`select ?s from from ?a ?b ?c ?d "x"^^type:nosuch ;`, `insert ?a ?b ?c ?d ?e _:`, `show ?a ?b ?c ?d #`,
 }
 
 func gen(seed int64, n, exhaust int) []tcase {
@@ -276,6 +318,15 @@ func gen(seed int64, n, exhaust int) []tcase {
 	var cases []tcase
 	for _, c := range corpus {
 		cases = append(cases, tcase{Kind: "corpus", Text: c})
+	}
+	reps := 40
+	if n > 5000 {
+		reps = 400
+	}
+	for r := 0; r < reps; r++ {
+		for _, c := range raceCorpus {
+			cases = append(cases, tcase{Kind: "race-repeat", Text: c})
+		}
 	}
 	var sents []string
 	for _, w := range ws {
@@ -341,7 +392,7 @@ func gen(seed int64, n, exhaust int) []tcase {
 			cases = append(cases, tcase{Kind: "mut-byte", Text: string(b)})
 		case 2: // swap a literal / value for an odd one
 			odd := []string{`""^^type:blob`, `"1"^^type:İnt64`, `"-1"^^type:int64`, `"9223372036854775807"^^type:int64`, `"NaN"^^type:float64`,
-				`"x"^^type:text`, `"[1 2 3]"^^type:blob`, `"true"^^type:bool`, `"p"@[?a,?b]`, `"p"@[,]`, `"p"@[2016-01-01T00:00:00Z,]`, `/u<>`, `_:v`}
+				`"x"^^type:text`, `"tall"^^type:int64`, `"1.5"^^type:int64`, `"abc"^^type:float64`, `"maybe"^^type:bool`, `"[300]"^^type:blob`, `"[1 2 3]"^^type:blob`, `"true"^^type:bool`, `"p"@[?a,?b]`, `"p"@[,]`, `"p"@[2016-01-01T00:00:00Z,]`, `/u<>`, `_:v`}
 			s := base
 			for _, tgt := range []string{`"1"^^type:int64`, `"3"^^type:int64`, `/u<mary>`, `"p"@[]`, `"parent_of"@[]`} {
 				if strings.Contains(s, tgt) && rng.Intn(2) == 0 {
